@@ -94,10 +94,13 @@ def obj(x):
     return a
 
 
-def _ew1(fsym, freal):
+def _ew1(fsym, freal, npname=None):
     def f(x, *a, **k):
         if not has_sym(x):
-            return freal(_demote(x) if isinstance(x, _np.ndarray) else x, *a, **k)
+            x2 = _demote(x) if isinstance(x, _np.ndarray) else x
+            if npname is not None:
+                return getattr(_np, npname)(x2, *a, **k)
+            return freal(x2, *a, **k)
         if isinstance(x, Sym):
             return fsym(x)
         if _is_larray(x):
@@ -191,9 +194,9 @@ def _s_arctan2(y, x):
     c = ctx()
     yz, xz = zreal(y), zreal(x)
     a = SAngle.fresh("atan2!%d" % next(c.fresh), "rad")
-    rho = c.fresh_real("rho")
-    # (x, y) = rho * (cos a, sin a), rho >= 0 ; at the origin atan2(0,0)=0
-    c.assume(z3.And(rho >= 0, xz == rho * a.c, yz == rho * a.s))
+    rho = SSqrt(xz * xz + yz * yz).value().e
+    # (x, y) = rho * (cos a, sin a), rho = sqrt(x^2+y^2) ; at the origin atan2(0,0)=0
+    c.assume(z3.And(xz == rho * a.c, yz == rho * a.s))
     c.assume(z3.Implies(z3.And(xz == 0, yz == 0), z3.And(a.c == 1, a.s == 0)))
     return a
 
@@ -284,25 +287,25 @@ class NPX(types.ModuleType):
         self.linalg = _Linalg()
         self.random = _Random()
         self._over = {
-            "sqrt": _ew1(_s_sqrt, math.sqrt),
-            "cos": _ew1(_s_cos, math.cos),
-            "sin": _ew1(_s_sin, math.sin),
-            "arccos": _ew1(_s_arccos, math.acos),
-            "abs": _ew1(_s_abs, abs),
-            "absolute": _ew1(_s_abs, abs),
-            "fabs": _ew1(_s_abs, abs),
-            "deg2rad": _ew1(_s_deg2rad, math.radians),
-            "radians": _ew1(_s_deg2rad, math.radians),
-            "rad2deg": _ew1(_s_rad2deg, math.degrees),
-            "degrees": _ew1(_s_rad2deg, math.degrees),
-            "floor": _ew1(core.sx_floor, math.floor),
-            "ceil": _ew1(core.sx_ceil, math.ceil),
-            "rint": _ew1(core.sx_round_half_even, round),
-            "round": _ew1(core.sx_round_half_even, round),
-            "around": _ew1(core.sx_round_half_even, round),
-            "exp": _ew1(lambda v: core.sx_fun("exp", v), math.exp),
-            "isnan": _ew1(lambda v: False, lambda v: v != v),
-            "isfinite": _ew1(lambda v: True, math.isfinite),
+            "sqrt": _ew1(_s_sqrt, math.sqrt, "sqrt"),
+            "cos": _ew1(_s_cos, math.cos, "cos"),
+            "sin": _ew1(_s_sin, math.sin, "sin"),
+            "arccos": _ew1(_s_arccos, math.acos, "arccos"),
+            "abs": _ew1(_s_abs, abs, "abs"),
+            "absolute": _ew1(_s_abs, abs, "absolute"),
+            "fabs": _ew1(_s_abs, abs, "fabs"),
+            "deg2rad": _ew1(_s_deg2rad, math.radians, "deg2rad"),
+            "radians": _ew1(_s_deg2rad, math.radians, "radians"),
+            "rad2deg": _ew1(_s_rad2deg, math.degrees, "rad2deg"),
+            "degrees": _ew1(_s_rad2deg, math.degrees, "degrees"),
+            "floor": _ew1(core.sx_floor, math.floor, "floor"),
+            "ceil": _ew1(core.sx_ceil, math.ceil, "ceil"),
+            "rint": _ew1(core.sx_round_half_even, round, "rint"),
+            "round": _ew1(core.sx_round_half_even, round, "round"),
+            "around": _ew1(core.sx_round_half_even, round, "around"),
+            "exp": _ew1(lambda v: core.sx_fun("exp", v), math.exp, "exp"),
+            "isnan": _ew1(lambda v: False, lambda v: v != v, "isnan"),
+            "isfinite": _ew1(lambda v: True, math.isfinite, "isfinite"),
             "arctan2": _arctan2,
             "zeros": _creation("zeros"),
             "ones": _creation("ones"),
